@@ -52,6 +52,8 @@ class Gen:
         return xs[self.r.randrange(len(xs))]
 
     def vars_of(self, sc, ty, mutable=None):
+        if ty == "str" and getattr(self, "no_str_vars", False) and mutable is None:
+            return []
         return [n for n, (t, m) in sc.lookup_all().items() if t == ty and (mutable is None or m == mutable)]
 
     def fresh_name(self, sc, allow_shadow=True, ty=None):
@@ -258,9 +260,15 @@ class Gen:
                     elif ty == "flt" and self.chance(0.5):
                         out.append(f"{p}{v} {self.pick(['+=', '-=', '*='])} {self.expr(sc, 'flt', 2)}")
                     elif ty == "str" and self.chance(0.5):
+                        # inside a loop a string must not be rebuilt from strings (s = s + s
+                        # doubles per iteration: the evaluator inside Coq would need minutes)
+                        self.no_str_vars = self.loop_depth > 0 or self.in_fn > 0
                         out.append(f"{p}{v} += {self.expr(sc, 'str', 1)}")
+                        self.no_str_vars = False
                     else:
+                        self.no_str_vars = ty == "str" and (self.loop_depth > 0 or self.in_fn > 0)
                         out.append(f"{p}{v} = {self.expr(sc, ty)}")
+                        self.no_str_vars = False
                     break
             else:
                 out.append(f"{p}println({self.expr(sc, 'int')})")
